@@ -93,6 +93,24 @@ type F8 struct{ V float64 }
 func (c *F8) Enc(v int64)        { c.V = float64(int32(v)) }
 func (c *F8) Dec() (int64, bool) { return int64(c.V), c.V == float64(int64(c.V)) }
 
+// P12 is 12 bytes with 4-byte alignment: larger than a word, not a multiple of the word size.
+type P12 struct{ A, B, C int32 }
+
+func (c *P12) Enc(v int64) {
+	a := int32(v)
+	if a == 0 {
+		*c = P12{}
+		return
+	}
+	c.A, c.B, c.C = a, ^a, a+7
+}
+func (c *P12) Dec() (int64, bool) {
+	if c.A == 0 {
+		return 0, c.B == 0 && c.C == 0
+	}
+	return int64(c.A), c.B == ^c.A && c.C == c.A+7
+}
+
 type P16 struct{ A, B int64 }
 
 func (c *P16) Enc(v int64) {
@@ -416,10 +434,12 @@ func (m mapT[T, P]) NewBatchFn(n int, fn func(e ecs.Entity, p unsafe.Pointer), t
 	}
 	m.m.NewBatchFn(n, func(e ecs.Entity, c *T) { fn(e, unsafe.Pointer(c)) }, target...)
 }
-func (m mapT[T, P]) Get(e ecs.Entity) unsafe.Pointer          { return unsafe.Pointer(m.m.Get(e)) }
-func (m mapT[T, P]) GetUnchecked(e ecs.Entity) unsafe.Pointer { return unsafe.Pointer(m.m.GetUnchecked(e)) }
-func (m mapT[T, P]) Has(e ecs.Entity) bool                    { return m.m.Has(e) }
-func (m mapT[T, P]) HasUnchecked(e ecs.Entity) bool           { return m.m.HasUnchecked(e) }
+func (m mapT[T, P]) Get(e ecs.Entity) unsafe.Pointer { return unsafe.Pointer(m.m.Get(e)) }
+func (m mapT[T, P]) GetUnchecked(e ecs.Entity) unsafe.Pointer {
+	return unsafe.Pointer(m.m.GetUnchecked(e))
+}
+func (m mapT[T, P]) Has(e ecs.Entity) bool          { return m.m.Has(e) }
+func (m mapT[T, P]) HasUnchecked(e ecs.Entity) bool { return m.m.HasUnchecked(e) }
 func (m mapT[T, P]) Add(e ecs.Entity, v int64, target []ecs.Entity) {
 	var c T
 	P(&c).Enc(v)
@@ -530,6 +550,7 @@ const (
 	IR0
 	IR1
 	IR2
+	IP12
 	N
 )
 
@@ -540,6 +561,7 @@ func init() {
 		mk[Z0]("Z0"), mk[Z1]("Z1"),
 		mk[Ptr]("Ptr"), mk[Slc]("Slc"), mk[Str]("Str"), mk[Mp]("Mp"), mk[Ifc]("Ifc"), mk[Mix]("Mix"),
 		mk[R0]("R0"), mk[R1]("R1"), mk[R2]("R2"),
+		mk[P12]("P12"),
 	}
 	for i := range Types {
 		Types[i].Idx = i
